@@ -46,6 +46,7 @@ type Result struct {
 	Samples            []string       `json:"samples"`
 	CorpusCases        int            `json:"corpus_cases"`
 	WallS              float64        `json:"wall_s"`
+	Extra              map[string]any `json:"extra,omitempty"`
 	Note               string         `json:"note,omitempty"`
 }
 
@@ -61,6 +62,7 @@ type Pipeline struct {
 	Workers  int
 	Search   bool // monitors only, no model comparison
 	Repeat   int  // C11: re-execute every case this many times
+	Fixed    []Case // externally supplied cases (C19: shipped schemas)
 }
 
 func LoadCase(path string) (Case, error) {
@@ -219,6 +221,7 @@ func (p *Pipeline) Run() *Result {
 	for i := 0; i < p.NCases; i++ {
 		cases = append(cases, GenCase(r, p.Opts))
 	}
+	cases = append(cases, p.Fixed...)
 	runs := runAll(cases, p.Workers)
 	var model [][]string
 	var err error
